@@ -215,7 +215,7 @@ def run(tier):
                 "unary x binary mixes; 11 assignment operators x operands x 4 initial values, chained; ++/-- forms combined under 8 operators; nested conditionals and short-circuit with side effects; recursive variable "
                 "contents; 40 malformed or erroring expressions; %d strided depth-3 trees.  Each is parsed and evaluated by Arith.tla in TLC, rendered with minimal spacing, wide spacing / upper-case digits, and the model's full "
                 "parenthesisation, and run in $(( )) plus a stratified subset in (( )), let, ${a[..]}, ${s:..}, declare -i; value, status and x y z afterwards compared" % (3000 if tier == "quick" else 40000),
-        "expressions": len(rows), "exhaustive": True,
+        "expressions": len(rows), "exhaustive": False,
         "samples": [{"expr": render(r0["toks"], "min"), "value": str(sval(r0["val"])), "status": r0["st"]} for r0 in rows[:: max(1, len(rows) // 3)][:3]],
     }, assumptions=["bash 5.2.15 is the reference; an (expression, probe) pair counts only if bash reproduces the model", "shift counts outside 0..63 are C-undefined and not judged"])
 
